@@ -146,6 +146,8 @@ def do_replay(args, engine, lanes, prop):
     want = rp.get("violation_class")
     got = vclass(engine, res)
     log(f"replay status={res.get('status')} class={got} digest={res.get('digest')}")
+    if res.get("status") in ("timeout", "died") and res.get("stderr"):
+        log("  output of the run: " + res["stderr"][-2500:])
     if args.dump:
         with open(args.dump, "w") as f:
             json.dump({k: v for k, v in res.items() if k != "record"}, f, indent=1, default=str)
